@@ -112,6 +112,26 @@ def main():
         for p, rs in res.get("checks", {}).items():
             for r in rs:
                 print(" ", p, "seed", r["seed"], "exit", r["exit"], (r["first"] or r["summary"])[:2])
+    elif cmd == "revert":
+        # tools_seeded.py revert <property[,more]> <name> <patch.diff> <what>
+        pids, name, patch, what = sys.argv[2].split(","), sys.argv[3], os.path.abspath(sys.argv[4]), sys.argv[5]
+        res = try_patch(pids, patch, None)
+        d = os.path.join(HERE, "seeded", name)
+        os.makedirs(d, exist_ok=True)
+        shutil.copy(patch, os.path.join(d, "patch.diff"))
+        open(os.path.join(d, "demo.py"), "w").write("# regression seed: reverts a fix commit; the demonstration is the replay printed by the check\n")
+        meta = {
+            "breaks_property": pids[0], "checked_with": pids,
+            "needs_to_manifest": what,
+            "ran": {"apply": res.get("apply"), "baseline_suite_with_patch": res.get("suite"),
+                    "checks": {p: [{"seed": r["seed"], "exit": r["exit"], "first_violation": r["first"][:2]} for r in rs]
+                               for p, rs in res.get("checks", {}).items()}},
+            "detected": any(r["exit"] == 1 and any("VIOLATION" in l for l in r["first"])
+                            for rs in res.get("checks", {}).values() for r in rs),
+            "origin": "reverse patch of a fix: commit in /repo (the original defect)",
+        }
+        json.dump(meta, open(os.path.join(d, "meta.json"), "w"), indent=1)
+        print(name, res.get("apply"), res.get("suite"), "detected" if meta["detected"] else "MISSED")
     elif cmd == "all":
         tier = sys.argv[2] if len(sys.argv) > 2 else "quick"
         rows = []
